@@ -566,6 +566,14 @@ func (f *Frame) convert(x *ssa.Convert) {
 			f.u.unsafeCasts[x] = f.unsafeOrigin(x.X)
 			return
 		}
+		if tok && tbb.Kind() == types.Uintptr {
+			// the numeric address of an object is not modelled: an opaque value that is zero exactly
+			// for the nil pointer (never converted back: uintptr -> unsafe.Pointer stays unsupported)
+			a := tb.UF("addrOf", BV64, v[0], v[1])
+			f.u.addFact(tb.Eq(tb.Eq(a, tb.BV(64, 0)), tb.Eq(v[0], tb.BV(32, 0))))
+			f.set(x, []*Term{a})
+			return
+		}
 		panic(unsupported("conversion from unsafe.Pointer to " + x.Type().String()))
 	case tok && tbb.Info()&types.IsString != 0:
 		// []byte -> string / rune -> string
